@@ -207,6 +207,28 @@ def register(PROPS, CLASSIFIERS, REPLAY_RUNNERS):
                 if p.get("kind") in ("short-chains-cut-by-burst", "hang", "raw-exception")]
     PROPS["C13"]["oracles"] = list(PROPS["C13"]["oracles"]) + [_c13_burst_replay]
     PROPS["C13"].setdefault("q_checks", []).append(_lazy("c14", "c13_bursts_of_short_chains"))
+
+    # ------------------------------------------------------------------ C16: "... regardless of ... which interpreter is used"
+    def c16_across_engines(tier, seed):
+        from . import multichecks
+        r = multichecks.c05_cross_engine(tier, seed + 16, profiles=("history", "done", "probe", "parallways"), n=40)
+        r["what"] = ("the same (machine, logic, events) on SyncInterpreter and on Interpreter: identical configurations, contexts and ORDERED action lists at every "
+                     "drained point (entry / exit order across parallel regions, history restoration); " + r["what"])
+        return r
+    PROPS["C16"].setdefault("q_checks", []).append(c16_across_engines)
+
+    # ------------------------------------------------------------------ C13: pure / enqueueActions callbacks that re-enqueue themselves (F77)
+    def _c13expand_replay(case, obs, flavor):
+        if "c13expand" not in case:
+            return []
+        return _call("c13expand", "replay_problems")(case["c13expand"], flavor)
+    PROPS["C13"]["oracles"] = list(PROPS["C13"]["oracles"]) + [_c13expand_replay]
+    PROPS["C13"]["q_checks"].append(_lazy("c13expand", "c13_self_expanding_actions"))
+
+    def _c13expand_cls(prob, case, flavor):
+        from . import c13expand
+        return c13expand.cls_width_runaway(prob, case, flavor)
+    CLASSIFIERS["expansion-width-runaway"] = _c13expand_cls
     PROPS["C13"].setdefault("lake_targets", []).append("driver_life")
 
     # ------------------------------------------------------------------ C14: stop() INSIDE a macrostep (directed, both engines; F72)
